@@ -103,6 +103,10 @@ type vfResult struct {
 	Steps      int              `json:"steps,omitempty"`
 	Log        []string         `json:"log,omitempty"`
 	WallUs     int64            `json:"wall_us,omitempty"`
+	// restart: the run left a goroutine spinning inside the code under test (a call that never
+	// returns cannot be stopped); the worker exits with status 4 after reporting and the runner
+	// starts a fresh process for the remaining runs
+	restart bool
 }
 
 func (r *vfResult) stat(k string, n int64) {
@@ -271,6 +275,9 @@ func TestVerif(t *testing.T) {
 			res.Log = nil
 		}
 		emit(res)
+		if res.restart {
+			os.Exit(4)
+		}
 	}
 
 	switch mode {
